@@ -344,7 +344,14 @@ class StartStageHandler(
         # WCP-16: Deferred choice - check if a sibling already claimed this group
         # Query the database directly because retrieve_stage() only loads
         # upstreams, not siblings in the same deferred_choice_group.
-        if stage.deferred_choice_group and self._is_deferred_choice_claimed(stage):
+        # A stage that is being re-planned (RUNNING: its claim commit, which took
+        # the choice, is durable) is the winner itself; its siblings may already
+        # have been canceled on its behalf and must not be read as "taken".
+        if (
+            stage.deferred_choice_group
+            and stage.status == WorkflowStatus.NOT_STARTED
+            and self._is_deferred_choice_claimed(stage)
+        ):
             logger.info(
                 "Deferred choice: sibling in group '%s' already claimed, cancelling %s",
                 stage.deferred_choice_group,
